@@ -49,7 +49,7 @@ ASSUMPTIONS = [
 ]
 
 AUTONOMOUS = ("auto", "polyauto")
-G_RE = z3.Function("g_eom", z3.RealSort(), z3.RealSort(), z3.RealSort(), z3.RealSort())
+# (the uninterpreted g is Ackermannised at call time, see FieldEom.g)
 # fixed polynomial used for g in the concrete (frac / real) runs
 G_COEF = (1 / 3.0, -1 / 2.0, 1 / 4.0, 1 / 5.0, 1 / 8.0)
 
@@ -93,6 +93,7 @@ class FieldEom:
     def __init__(self, inp, kind, dims):
         self.inp, self.kind = inp, kind
         self.calls = []
+        self.apps = {}
         if kind == "linear":
             self.alpha = inp.real("alpha")
             self.beta = inp.real("beta")
@@ -112,8 +113,18 @@ class FieldEom:
         if self.kind == "auto":
             t = 0.0
         if self.inp.symbolic:
+            # uninterpreted g, Ackermannised at call time: every application with (syntactically, after
+            # z3's simplifier) new arguments is a fresh real variable, equal arguments share the variable.
+            # Only congruence between semantically-equal-but-differently-written arguments is lost, which can
+            # produce a spurious counterexample (rejected by the replay) but never a spurious proof; the
+            # queries stay pure polynomial arithmetic, where z3 refutes and the instance search finds models
+            # (nested uninterpreted applications made z3 ignore its timeout on violated obligations).
             t, a = S.of(t), S.of(a)
-            return S(G_RE(sym.zr(t.re), sym.zr(a.re), sym.zr(a.im)))
+            args = tuple(z3.simplify(sym.zr(x)) for x in (t.re, a.re, a.im))
+            key = tuple(x.get_id() for x in args)
+            if key not in self.apps:
+                self.apps[key] = (args, z3.Real("g_app%d" % len(self.apps)))
+            return S(self.apps[key][1])
         c = G_COEF
         return c[0] + c[1] * t + c[2] * a + c[3] * t * a + c[4] * t * t
 
